@@ -104,7 +104,9 @@ class IcapServer:
                     await writer.drain()
                     continue
                 # adapted message
-                ahead = ('HTTP/1.1 200 OK\r\nContent-Length: %d\r\nX-Verif-Version: %d\r\nX-Adapted: 1\r\nCache-Control: no-store\r\n\r\n' % (b['la'], b['va'])).encode()
+                # aframing "none": the adapted header does not announce its body length (Squid then delimits it itself)
+                ahead = ('HTTP/1.1 200 OK\r\n%sX-Verif-Version: %d\r\nX-Adapted: 1\r\nCache-Control: no-store\r\n\r\n' % (
+                    'Content-Length: %d\r\n' % b['la'] if b.get('aframing', 'length') == 'length' else '', b['va'])).encode()
                 ihead = ('ICAP/1.0 200 OK\r\nISTag: "verif-1"\r\nEncapsulated: res-hdr=0, res-body=%d\r\n\r\n' % len(ahead)).encode()
                 abody = b['abody']
                 if kind == 'abortMidHead':
